@@ -246,22 +246,35 @@ ProcBlock(f, b, evs, i, skipped, acc, chunk) ==
                       Append(acc, [b |-> b, t |-> evs[i + 1].t, i |-> evs[i + 1].i]), chunk)
   ELSE [acc |-> acc, full |-> TRUE, processed |-> i]
 
-(* EventFilter.canonicalEvents: one page over [b, hi]; loaded = windows whose filter was loaded *)
+(* a filter without any constraint: every block of a window is a candidate *)
+IsMatchAll(f) == f.addrs = {} /\ \A p \in 1..Len(f.keys) : f.keys[p] = {}
+Min(S) == CHOOSE x \in S : \A y \in S : x <= y
+
+(* EventFilter.canonicalEvents + MatchedBlockIterator: one page over [b, hi], window by window,
+   jumping from candidate to candidate; loaded = windows whose filter was loaded.  (With an
+   unconstrained filter and no scan limit the empty base blocks are skipped: visiting them has no
+   effect.) *)
 RECURSIVE Walk(_, _, _, _, _, _, _, _, _, _)
 Walk(f, b, hi, skipped, acc, scanned, loaded, chunk, limit, uc) ==
   IF b > hi THEN [err |-> FALSE, ev |-> acc, tok |-> NoTok, loaded |-> loaded]
   ELSE LET w == b \div W
-           src == SrcOf(w, uc) IN
+           src == SrcOf(w, uc)
+           wend == IF hi < w * W + W - 1 THEN hi ELSE w * W + W - 1 IN
        IF src = Missing THEN [err |-> TRUE, ev |-> <<>>, tok |-> NoTok, loaded |-> loaded]
-       ELSE IF ~MayMatch(f, Col(src, b))
-            THEN Walk(f, b + 1, hi, skipped, acc, scanned, loaded \cup {w}, chunk, limit, uc)
-       ELSE IF limit > 0 /\ scanned + 1 > limit
-            THEN [err |-> FALSE, ev |-> acc, tok |-> [b |-> b, p |-> 0], loaded |-> loaded \cup {w}]
-       ELSE LET pb == ProcBlock(f, b, Flat(BlockAt(b)), 0, skipped, acc, chunk) IN
-            IF pb.full
-            THEN [err |-> FALSE, ev |-> pb.acc, tok |-> [b |-> b, p |-> pb.processed],
-                  loaded |-> loaded \cup {w}]
-            ELSE Walk(f, b + 1, hi, 0, pb.acc, scanned + 1, loaded \cup {w}, chunk, limit, uc)
+       ELSE LET lo == IF IsMatchAll(f) /\ limit = 0 /\ b < Base
+                      THEN (IF Base <= wend THEN Base ELSE wend + 1) ELSE b
+                cands == IF IsMatchAll(f) THEN lo..wend
+                         ELSE {c \in {x[1] : x \in src} : c >= b /\ c <= wend /\ MayMatch(f, Col(src, c))} IN
+            IF cands = {}
+            THEN Walk(f, wend + 1, hi, skipped, acc, scanned, loaded \cup {w}, chunk, limit, uc)
+            ELSE LET c == Min(cands) IN
+                 IF limit > 0 /\ scanned + 1 > limit
+                 THEN [err |-> FALSE, ev |-> acc, tok |-> [b |-> c, p |-> 0], loaded |-> loaded \cup {w}]
+                 ELSE LET pb == ProcBlock(f, c, Flat(BlockAt(c)), 0, skipped, acc, chunk) IN
+                      IF pb.full
+                      THEN [err |-> FALSE, ev |-> pb.acc, tok |-> [b |-> c, p |-> pb.processed],
+                            loaded |-> loaded \cup {w}]
+                      ELSE Walk(f, c + 1, hi, 0, pb.acc, scanned + 1, loaded \cup {w}, chunk, limit, uc)
 
 (* EventFilter.Events with a nil pre-confirmed reader *)
 Page(f, start, to, skipped, chunk, limit, uc) ==
@@ -284,6 +297,7 @@ Pages(f, start, to, skipped, chunk, limit, uc, fuel) ==
 RECURSIVE NaiveScan(_, _, _)
 NaiveScan(f, from, to) ==
   IF from > to \/ from > Height THEN <<>>
+  ELSE IF from < Base THEN NaiveScan(f, Base, to)     \* the base blocks are empty
   ELSE LET evs == Flat(BlockAt(from))
            hit == SelectSeq(evs, LAMBDA x : MatchEvent(f, x.e)) IN
        [j \in 1..Len(hit) |-> [b |-> from, t |-> hit[j].t, i |-> hit[j].i]] \o NaiveScan(f, from + 1, to)
